@@ -9,7 +9,8 @@ use std::path::{Path, PathBuf};
 use txtpp::{Config, Verbosity};
 
 const RELS: [&str; 4] = ["equal", "cwd-ancestor-of-base", "cwd-inside-base", "unrelated"];
-const SHELLS: [&str; 3] = ["default", "bash -c", "argv-script"];
+const SHELLS: [&str; 6] = ["default", "bash -c", "argv-script", "/bin/sh  -e   -c", "bash --norc -c", "argv-script extra1 extra2"];
+const NAME_SHAPES: [(&str, &str); 3] = [("s.txt.txtpp", "s.txt"), ("s.txtpp.txt", "s.txt"), ("s.txtpp", "s")];
 /// (name, source lines of the command directive, expected stdout under sh, the single argument the shell must see)
 const SHAPES: [(&str, &[&str], &str, &str); 3] = [
     ("one-line", &["-TXTPP#run echo a  b"], "a b\n", "echo a  b"),
@@ -135,11 +136,15 @@ fn run_case(rep: &Report, c: &ConfCase) {
     let script = argv_script(&l.scratch.path);
     let shell_cmd = match c.shell {
         "default" => String::new(),
-        "bash -c" => "bash -c".to_string(),
-        _ => script.clone(),
+        "argv-script" => script.clone(),
+        "argv-script extra1 extra2" => format!("{script} extra1 extra2"),
+        other => other.to_string(),
     };
-    let src = l.src_dir.join("s.txt.txtpp");
-    let out = l.src_dir.join("s.txt");
+    let argv_shell = c.shell.starts_with("argv-script");
+    let extra_args = if c.shell == "argv-script extra1 extra2" { 2 } else { 0 };
+    let (src_name, out_name) = NAME_SHAPES[c.depth % 3];
+    let src = l.src_dir.join(src_name);
+    let out = l.src_dir.join(out_name);
     let text = match c.shape {
         Some(s) => {
             let mut t = String::from("-TXTPP#run pwd -P\n+TXTPP#run printf '%s\\n' \"$TXTPP_FILE\"\n");
@@ -183,7 +188,7 @@ fn run_case(rep: &Report, c: &ConfCase) {
         None => {
             rep.add("exit_code_cases", 1);
             // the argv script itself always exits 0, whatever the command text says
-            let expected_ok = c.shell == "argv-script" || c.exit == 0;
+            let expected_ok = argv_shell || c.exit == 0;
             if verdict_ok != expected_ok {
                 rep.violate(
                     "exit-status",
@@ -204,9 +209,11 @@ fn run_case(rep: &Report, c: &ConfCase) {
             }
             let got = got.unwrap_or_default();
             let lines: Vec<&str> = got.lines().collect();
-            if c.shell == "argv-script" {
-                // every command line is echoed as argc + the single argument
-                let want = format!("argc=1\n[pwd -P]\nargc=1\n[printf '%s\\n' \"$TXTPP_FILE\"]\nargc=1\n[{}]\nEND\n", SHAPES[s].3);
+            if argv_shell {
+                // every command line is echoed as argc + the configured extra arguments + the single command argument
+                let pre = if extra_args == 2 { "[extra1]\n[extra2]\n" } else { "" };
+                let n = 1 + extra_args;
+                let want = format!("argc={n}\n{pre}[pwd -P]\nargc={n}\n{pre}[printf '%s\\n' \"$TXTPP_FILE\"]\nargc={n}\n{pre}[{}]\nEND\n", SHAPES[s].3);
                 if got != want {
                     rep.violate("shell-argv", format!("{:?}: the configured shell saw {:?}, expected {:?}", c, got, want), case_json(c));
                 }
@@ -278,9 +285,9 @@ pub fn run_c17(tier: &str) -> i32 {
     let rep = Report::new("C17", tier);
     let cs = cases();
     rep.set("cases_planned", json!(cs.len()));
-    rep.set("bounds", json!("depth 0..3 x {library x 4 base/cwd relations, CLI x cwd=base} x 3 shells x (3 command shapes + exit codes 0/1/7 + death by SIGKILL); TXTPP_FILE guard in 4 modes; a source that calls txtpp"));
+    rep.set("bounds", json!("depth 0..3 x {library x 4 base/cwd relations, CLI x cwd=base} x 6 shells (default, bash -c, shells with several arguments and repeated blanks, an argv-echo script with and without extra arguments) x three source-name shapes x (3 command shapes + exit codes 0/1/7 + death by SIGKILL); TXTPP_FILE guard in 4 modes; a source that calls txtpp"));
     rep.assume("TXTPP_FILE 'designates' the source if it resolves to it as an absolute path, relative to the base directory or relative to the command's directory (Q5)");
-    rep.st(4 * 4 * 3);
+    rep.st(4 * 4 * 6);
     sharded_dyn(&rep, par_threads(), |k, _n, next, rep| {
         loop {
             let i = next();
